@@ -79,6 +79,26 @@ var configs = []*Config{
 	{Name: "resub-seq-closeBus", Tier: "quick", Publishers: [][]int{{1, 2}}, Subs: []SubSpec{sub("A", 0), sub("B", inf), sub("C", inf)}, Closers: []string{"A", "bus"},
 		After: map[string][]string{"sub:B": {"sub:A"}, "close:A": {"sub:B"}, "sub:C": {"closed:A"}, "pub": {"sub:C"}, "close:bus": {"pub"}}},
 
+	// a parent closed while it has two or more live children (seed C15-8: the shutdown drain loop
+	// stops collecting children early, depending on the order in which they finish versus the map's
+	// iteration order). The parent's Close() is called once all children exist; each child's own
+	// Close() is called after the parent's returned and must return (=> its Done() fired).
+	// "-self": one child closes itself concurrently with the parent. "R-": parent is a subscriber.
+	{Name: "closeBus-2kids", Tier: "quick", Publishers: [][]int{{1}}, Subs: []SubSpec{sub("A", 0), sub("B", 0)}, Closers: []string{"bus", "A", "B"},
+		After: map[string][]string{"close:bus": {"sub:A", "sub:B"}, "close:A": {"closed:bus"}, "close:B": {"closed:bus"}}},
+	{Name: "closeBus-2kids-readers", Tier: "quick", Publishers: [][]int{{1}}, Subs: []SubSpec{sub("A", inf), sub("B", inf)}, Closers: []string{"bus", "A", "B"},
+		After: map[string][]string{"close:bus": {"sub:A", "sub:B"}, "close:A": {"closed:bus"}, "close:B": {"closed:bus"}}},
+	{Name: "closeBus-3kids", Tier: "quick", Publishers: [][]int{}, Subs: []SubSpec{sub("A", 0), sub("B", 0), sub("C", 0)}, Closers: []string{"bus", "A", "B", "C"},
+		After: map[string][]string{"close:bus": {"sub:A", "sub:B", "sub:C"}, "close:A": {"closed:bus"}, "close:B": {"closed:bus"}, "close:C": {"closed:bus"}}},
+	{Name: "closeBus-2kids-self", Tier: "quick", Publishers: [][]int{{1}}, Subs: []SubSpec{sub("A", 0), sub("B", 0)}, Closers: []string{"bus", "A", "B"},
+		After: map[string][]string{"close:bus": {"sub:A", "sub:B"}, "close:A": {"sub:A", "sub:B"}, "close:B": {"closed:bus"}}},
+	{Name: "closeBus-3kids-self", Tier: "quick", Publishers: [][]int{}, Subs: []SubSpec{sub("A", 0), sub("B", 0), sub("C", 0)}, Closers: []string{"bus", "A", "B", "C"},
+		After: map[string][]string{"close:bus": {"sub:A", "sub:B", "sub:C"}, "close:A": {"sub:A", "sub:B", "sub:C"}, "close:B": {"closed:bus"}, "close:C": {"closed:bus"}}},
+	{Name: "R-close-2clones", Tier: "quick", Publishers: [][]int{{1}}, Subs: []SubSpec{sub("R", 0), clone("A", "R", 0), clone("B", "R", 0)}, Closers: []string{"R", "A", "B"},
+		After: map[string][]string{"close:R": {"sub:A", "sub:B"}, "close:A": {"closed:R"}, "close:B": {"closed:R"}}},
+	{Name: "R-close-2clones-self", Tier: "quick", Publishers: [][]int{{1}}, Subs: []SubSpec{sub("R", 0), clone("A", "R", 0), clone("B", "R", 0)}, Closers: []string{"R", "A", "B"},
+		After: map[string][]string{"close:R": {"sub:A", "sub:B"}, "close:A": {"sub:A", "sub:B"}, "close:B": {"closed:R"}}},
+
 	// three clients / longer streams (the "thorough" ones have 10^6..10^7 states)
 	{Name: "p3-A-cloneB", Tier: "quick", Publishers: [][]int{{1, 2, 3}}, Subs: []SubSpec{sub("A", inf), clone("B", "A", inf)}},
 	{Name: "p3-A2-cloneB-C", Tier: "thorough", Publishers: [][]int{{1, 2, 3}}, Subs: []SubSpec{sub("A", 2), clone("B", "A", inf), sub("C", inf)}},
